@@ -93,7 +93,7 @@ def reg(pid, level, rules, explanation):
 
 reg("C01", "other",
     [T.t_bij, P.t_prop3, L.l_eq, B.l_cover, P.l_propdec, D.h_dispatch3, T.t_varint_readers, PL.s_persist, PL.h_total,
-     B.t_bits, C.h_payfmt, L.t_ctl, P3.h_shortform, TR.l_trace, P3.t_prims, T.t_proto, P.h_bytevals, T.t_varint_writer],
+     B.t_bits, C.h_payfmt, L.t_ctl, P3.h_shortform, TR.l_trace, P3.t_prims, T.t_proto, P.h_bytevals, T.t_varint_writer, P.t_props_whole, P.t_props_encvalues, IO.s_collect],
     "NOT decided: equality of the decoded value with the original over the unbounded value space (a runtime quantity). Decided: structural necessary conditions of a round trip, each exact for what it compares: "
     "T-bij (every wire-code enum's `as u8` discriminant table and its from_u8 table, evaluated for all 256 bytes, are inverse "
     "bijections), T-prop3 (decode / encode / encode_len of every v5 property set handle the same ids wired to the same field), L-eq "
@@ -103,7 +103,10 @@ reg("C01", "other",
     "hands over the raw body and reports 1+len-of-len+remaining), T-bits / T-ctl (flag bytes and control bytes written by the encoders "
     "are the ones the decoders read back, over their complete domains), H-payfmt (the payload check rejects only flag=Some(true) with "
     "invalid UTF-8), H-shortform (the v5 short forms the encoder emits are the ones the decoders accept), L-trace (encoder and decoder of "
-    "every body put the same kinds of wire items in the same order and a field is read at the position at which it is written).")
+    "every body put the same kinds of wire items in the same order and a field is read at the position at which it is written; every "
+    "integer wider than a byte, string, binary field and nested block outside list loops is written from a field as it is and stored as "
+    "it was read -- not clamped, defaulted, normalised or derived; decoded lists and strings are not rearranged in place), T-props whole / "
+    "T-propid values (each property decoder stores, and each property encoder writes, the value as it is).")
 
 reg("C02", "other",
     [L.l_eq, L.l_hdr, L.l_fixed, L.s_dbg, PN.s_panic_encode, T.t_width, T.t_varint_writer, P3.t_prims, IO.h_async1, IO.s_writers],
@@ -131,15 +134,17 @@ reg("C03", "other",
 
 reg("C04", "other",
     [T.t_codes, T.t_hdr, P.t_props, P.t_props_whole, P.h_proplen, P.h_dup, P.h_bytevals, P.l_propdec, PL.h_exactfill, B.t_bits, B.h_checked_sub,
-     B.l_consume, C.h_ctor, C.h_utf8, T.t_varint_readers, P3.h_shortform, P3.t_prims, C.h_accessors, T.t_width],
+     B.l_consume, C.h_ctor, C.h_utf8, T.t_varint_readers, P3.h_shortform, P3.t_prims, C.h_accessors, T.t_width, TR.l_trace, IO.s_collect, T.t_proto],
     "NOT decided: language equality between the strict decoder's accepted set and the MQTT grammar, nor the conjunction of the "
     "clauses below into it. Decided exactly against independent OASIS tables (spec_mqtt.py): header nibble/flag table for all 256 "
     "control bytes (T-hdr), accepted domain of every code table (T-codes), permitted property set per packet and its rejecting default "
     "arm (T-props; also each property-set decoder evaluated as a whole function on one-property blocks, the empty block and a block one byte short), duplicate rejection before every store (H-dup), 0/1 byte properties (H-bytevals), exact property length test "
     "(H-proplen), exact fill of the frame and zero remaining length for body-less packets in the poll decoder (P-complete/P-body), "
     "CONNECT flag / subscription-option / CONNACK-flag masks and validators over all 256 bytes (T-bits), checked_sub on every decrement, "
-    "validated constructors for pid/topic/filter/var-int (H-ctor) with the variable byte integer's bound at exactly 2^28 (T-width), UTF-8 validation before string construction (H-utf8), the three v5 "
-    "short forms and no others (H-shortform). The library's deliberate leniencies are listed in DESIGN.md section 5.")
+    "protocol name / level pairs accepted exactly as (MQIsdp,3) (MQTT,4) (MQTT,5) (T-proto), validated constructors for pid/topic/filter/var-int (H-ctor) with the variable byte integer's bound at exactly 2^28 (T-width), UTF-8 validation before string construction (H-utf8), the three v5 "
+    "short forms and no others (H-shortform); what an accepting decoder puts into the packet is what it read -- every integer wider than a "
+    "byte, string, binary field and property value is stored as it is, and decoded lists and strings are not rearranged afterwards "
+    "(L-trace value clauses, T-props whole), and every entry read in a loop is stored unconditionally (S-collect). The library's deliberate leniencies are listed in DESIGN.md section 5.")
 
 reg("C05", "other",
     [PL.h_borrow, PL.s_persist, PL.h_pending, PL.h_cap, PL.h_total, T.t_varint_readers],
@@ -164,7 +169,7 @@ reg("C06", "other",
     "encode side only).")
 
 reg("C07", "other",
-    [IO.s_readers, IO.s_ioerr, IO.t_eof, IO.h_noswallow, D.h_block, B.l_consume, PL.h_pending, PL.h_total, P3.t_prims, P.l_propdec, P3.h_shortform],
+    [IO.s_readers, IO.s_ioerr, IO.t_eof, IO.h_noswallow, D.h_block, B.l_consume, PL.h_pending, PL.h_total, P3.t_prims, P.l_propdec, P3.h_shortform, IO.s_collect],
     "Decided per site: every transport call is read_exact (operand read completely before use) or poll_read in poll "
     "(S-readers); every io::Result is propagated by `?` or a kind-preserving map_err (S-ioerr); is_eof <=> IoError(UnexpectedEof) "
     "for both error types and zero-length reads produce exactly that (T-eof, P-header/P-body); no map_err closure relabels an I/O "
@@ -172,18 +177,21 @@ reg("C07", "other",
     "propagates it in every arm that can see an Err (H-noswallow); Packet::decode maps exactly the EOF class to Ok(None) (H-block); "
     "decoders consume exactly the frame's remaining length, so trailing bytes are never touched (L-consume), the v5 acknowledgement "
     "family included: each of its forms reads every byte of the declared length, so the encoding minus its last byte is not a packet "
-    "(H-shortform); an arm that catches an end of input never replaces it by another error (H-noswallow). Not decided: that no "
+    "(H-shortform); an arm that catches an end of input never replaces it by another error (H-noswallow); every entry read in a loop is stored, so that "
+    "accounting the bytes through the stored entries does not miscount (S-collect). Not decided: that no "
     "validation fires early on a strict prefix of a valid encoding (follows from read-before-use but is not derived).")
 
 reg("C08", "other",
     [PL.h_total, PL.h_cap, B.l_consume, P.l_propdec, P.h_proplen, T.t_width, T.t_varint_readers, PL.s_persist, P3.h_shortform,
-     C.h_utf8, IO.s_readers, P3.t_prims],
+     C.h_utf8, IO.s_readers, P3.t_prims, T.t_varint_writer, T.t_bij],
     "NOT decided: equality of a decoded sequence with a generated one over all histories. Decided: the per-packet consumption "
     "invariant from which framing follows by induction: the poll decoder reads 1 + (1 + var_idx) header bytes and exactly "
     "remaining_len body bytes and reports their sum (P-header, P-complete, P-body, S-persist); every accounting body decoder consumes "
     "exactly header.remaining_len bytes on every accepting path and each loop reads what it subtracts (L-consume, L-propdec, "
     "H-proplen, under minimal var-ints); the v5 acknowledgement family reads exactly the declared length in its fixed-size forms and "
-    "goes on to the property block otherwise (H-shortform); total_len / header_len / remaining_len are mutually consistent (T-width).")
+    "goes on to the property block otherwise (H-shortform); total_len / header_len / remaining_len are mutually consistent (T-width); on "
+    "the encoding side of the sequence, every length is written as the variable byte integer the readers invert (V-writer) and every code "
+    "byte a table writes is the one its from_u8 maps back to the same variant (T-bij).")
 
 reg("C09", "other",
     [IO.h_async1, IO.h_asref, IO.s_writers, IO.s_pure, L.l_hdr, L.l_fixed, L.l_eq, P3.t_prims, T.t_varint_writer],
@@ -196,7 +204,7 @@ reg("C09", "other",
     "encode closure reads no static/thread-local/interior-mutable state and calls nothing environment dependent (S-pure).")
 
 reg("C10", "other",
-    [T.t_rc, L.t_ctl, P.t_propid, B.t_bits, T.t_varint_writer, T.t_proto, L.l_hdr, L.l_eq, P.t_prop3, TR.l_trace, P3.t_prims, IO.h_async1, IO.s_writers],
+    [T.t_rc, L.t_ctl, P.t_propid, P.t_props_encvalues, B.t_bits, T.t_varint_writer, T.t_proto, L.l_hdr, L.l_eq, P.t_prop3, TR.l_trace, P3.t_prims, IO.h_async1, IO.s_writers],
     "Static analysis cannot run an independent decoder; decided instead: every constant the encoder puts on the wire equals the "
     "independently typed OASIS tables (spec_mqtt.py): control bytes incl. PUBLISH flag bits for all 12 flag combinations (T-ctl), all "
     "138 wire-code enum discriminants (T-rc), property ids, their wire types and the id-then-value order, length prefix = sum of "
@@ -207,7 +215,7 @@ reg("C10", "other",
 
 reg("C11", "other",
     [L.l_eq, B.l_cover, T.t_bij, PN.s_panic_encode, T.t_width, C.h_ctor, P.l_propdec, P.h_proplen, B.t_bits, L.t_ctl, P3.h_shortform,
-     TR.l_trace, P3.t_prims, T.t_proto, P.t_prop3, P.h_bytevals, IO.h_async1, IO.s_writers, T.t_varint_writer, D.h_hdr1, D.h_dispatch3],
+     TR.l_trace, P3.t_prims, T.t_proto, P.t_prop3, P.h_bytevals, IO.h_async1, IO.s_writers, T.t_varint_writer, D.h_hdr1, D.h_dispatch3, P.t_props_whole, P.t_props_encvalues, IO.s_collect],
     "NOT decided: the runtime round trip over accepted byte strings. Decided (necessary): the encoder is length-exact on every "
     "value a decoder can construct, not only canonical ones (L-eq quantifies over all atom assignments); every length-bearing "
     "field is written whenever present, depending only on itself (L-cover); every enum value a from_u8 table returns is written "
